@@ -370,7 +370,7 @@ class Fn:
         # (x, y).0 of a checked arithmetic op -> the arithmetic result
         if base[0] == "bin" and base[1].endswith("WithOverflow") and proj[0][0] == "field":
             if proj[0][1] == 0:
-                base = ("bin", base[1][: -len("WithOverflow")], base[2], base[3])
+                base = fold_bin(("bin", base[1][: -len("WithOverflow")], base[2], base[3]))
                 proj = proj[1:]
                 if not proj:
                     return base
@@ -435,7 +435,7 @@ class Fn:
         if k == "Use":
             return self.term_of_operand(rv["op"], b, depth)
         if k == "BinaryOp":
-            return ("bin", rv["op"], self.term_of_operand(rv["l"], b, depth), self.term_of_operand(rv["r"], b, depth))
+            return fold_bin(("bin", rv["op"], self.term_of_operand(rv["l"], b, depth), self.term_of_operand(rv["r"], b, depth)))
         if k == "UnaryOp":
             return ("un", rv["op"], self.term_of_operand(rv["x"], b, depth))
         if k == "Cast":
@@ -496,9 +496,27 @@ class Fn:
         blk = self.blocks[b]
         if i is None or i < 0 or i >= len(blk["stmts"]):
             sp = blk["term"]["sp"]
+            if sp["l0"] <= 1:
+                for s in blk["stmts"]:
+                    if s.get("sp") and s["sp"]["l0"] > 1:
+                        sp = s["sp"]
         else:
             sp = blk["stmts"][i].get("sp") or blk["term"]["sp"]
         return "%s:%s" % (sp["file"], sp["l0"])
+
+
+def fold_bin(t):
+    """Fold arithmetic on two scalar constants (unsigned 64-bit range assumed sufficient)."""
+    if t[0] == "bin" and t[2][0] == "c" and t[3][0] == "c" and isinstance(t[2][1], int) and isinstance(t[3][1], int):
+        a, b = t[2][1], t[3][1]
+        op = t[1]
+        if op == "Add":
+            return ("c", a + b, None)
+        if op == "Sub" and a >= b:
+            return ("c", a - b, None)
+        if op == "Mul":
+            return ("c", a * b, None)
+    return t
 
 
 def callee_of(t):
